@@ -1,0 +1,53 @@
+//! Simulation hooks (cargo feature `sim-hooks`, off by default).
+//!
+//! A deterministic simulator can install a [`Controller`] to decide, at a
+//! small number of named points, whether the calling task proceeds or parks,
+//! and to make the few remaining sources of entropy reproducible. Without the
+//! feature this module is not compiled; with the feature but without an
+//! installed controller every function here is a no-op.
+
+use std::future::Future;
+use std::pin::Pin;
+use std::sync::OnceLock;
+
+pub type GateFuture = Pin<Box<dyn Future<Output = ()> + Send>>;
+
+pub trait Controller: Send + Sync + 'static {
+    /// Called when a task reaches gate `name` (e.g. `flush.published`) with
+    /// `key` (e.g. `s0/00003`). Return a future to park the task until the
+    /// simulator releases it, or `None` to let it run straight through.
+    fn gate(&self, name: &'static str, key: &str) -> Option<GateFuture>;
+
+    /// Deterministic replacement for the random schema uid.
+    fn uid_override(&self, _event_type: &str) -> Option<String> {
+        None
+    }
+
+    /// Called from busy-wait loops on the wall clock.
+    fn spin(&self) {}
+}
+
+static CONTROLLER: OnceLock<Box<dyn Controller>> = OnceLock::new();
+
+/// Install the process-wide controller. Returns false if one was installed already.
+pub fn install(controller: Box<dyn Controller>) -> bool {
+    CONTROLLER.set(controller).is_ok()
+}
+
+pub async fn gate(name: &'static str, key: String) {
+    if let Some(c) = CONTROLLER.get() {
+        if let Some(fut) = c.gate(name, &key) {
+            fut.await;
+        }
+    }
+}
+
+pub fn uid_override(event_type: &str) -> Option<String> {
+    CONTROLLER.get().and_then(|c| c.uid_override(event_type))
+}
+
+pub fn spin() {
+    if let Some(c) = CONTROLLER.get() {
+        c.spin();
+    }
+}
